@@ -136,17 +136,27 @@ where
         }
         
         match msg.optype {
+            // A request made in background has nobody to report its failure to (the request is inapplicable in the
+            // current state, or a file operation failed): it is logged, the maintenance of the storage goes on
             OperationType::ForceUpdateActiveBlob => {
-                update_active_blob(&self.inner).await?;
+                if let Err(e) = update_active_blob(&self.inner).await {
+                    error!("active blob was not updated in background: {:#}", e);
+                }
             },
             OperationType::CloseActiveBlob => {
-                self.inner.close_active_blob().await?;
+                if let Err(e) = self.inner.close_active_blob().await {
+                    warn!("active blob was not closed in background: {:#}", e);
+                }
             },
             OperationType::CreateActiveBlob => {
-                self.inner.create_active_blob().await?;
+                if let Err(e) = self.inner.create_active_blob().await {
+                    warn!("active blob was not created in background: {:#}", e);
+                }
             },
             OperationType::RestoreActiveBlob => {
-                self.inner.restore_active_blob().await?;
+                if let Err(e) = self.inner.restore_active_blob().await {
+                    warn!("active blob was not restored in background: {:#}", e);
+                }
             },
             OperationType::TryDumpBlobIndexes => {
                 self.try_run_old_blob_indexes_dump_task().await;
@@ -155,7 +165,15 @@ where
                 self.try_run_fsync_task().await;
             }
             OperationType::TryUpdateActiveBlob => {
-                if self.try_update_active_blob().await? {
+                let updated = match self.try_update_active_blob().await {
+                    Ok(updated) => updated,
+                    Err(e) => {
+                        // the next write that finds the active blob full asks again
+                        error!("active blob was not switched: {:#}", e);
+                        false
+                    }
+                };
+                if updated {
                     // Dump due to an active BLOB switch can overlap with a deferred dump due to deletion. 
                     // That can result in performance degradation. 
                     // Therefore, if a deferred dump is registered, then we attach to it
